@@ -176,6 +176,9 @@ func cmdReplay(args []string) int {
 		fmt.Fprintln(os.Stderr, err)
 		return 2
 	}
+	if strings.Contains(string(b), `"kind": "bounded"`) {
+		return replayBounded(args[0], b)
+	}
 	var rf ReplayFile
 	if err := json.Unmarshal(b, &rf); err != nil {
 		fmt.Fprintln(os.Stderr, err)
